@@ -133,7 +133,7 @@ def fmtx(bits, ch, rate=8000):
 
 def malformed(rng):
     """(filespec, tags): files that used to make Wave_File::read / add_sample read outside a buffer or loop
-    forever (fixed f90557f..cc35940), and random corruptions of well-formed files"""
+    forever (fixed 3c87fd7..2288e89), and random corruptions of well-formed files"""
     n = rng.choice([1, 2, 5, 8, 9, 16])
     d = data_bytes(n, rng.randrange(256))
     bits = rng.choice([8, 16])
@@ -296,14 +296,14 @@ CORPUS = [
     ("wave 256 64 | R 0 40 0 0 1 0 0 f:40:1 | R 0 40 0 0 1 0 0 f:40:2 | T w:8:1:8000:12:7 offset=2", ["corpus", "offset-override", "gap-reuse"]),
     # offset sample that shares an earlier whole sample: fine
     ("wave 256 0 | T w:8:1:8000:16:16 | T w:8:1:8000:16:16 offset=4", ["corpus", "offset-override", "repeat"]),
-    # duplicate detector used to match unallocated (zero) rom behind a stored sample; fixed b5437a3
+    # duplicate detector used to match unallocated (zero) rom behind a stored sample; fixed 1a012dd
     ("wave 256 0 | R 0 3 0 0 8000 0 0 h:010203 | R 0 5 0 0 8000 0 0 h:0102030000 | R 0 2 0 0 8000 0 0 h:0909", ["corpus", "dup-span"]),
     ("wave 256 64 | R 0 40 0 0 1 0 0 h:" + "07" * 40 + " | R 0 40 0 0 1 0 0 f:40:2 | R 0 44 0 0 1 0 0 h:" + "07" * 40 + "00000000 | R 0 4 0 0 1 0 0 h:01020304",
      ["corpus", "dup-span", "gap-reuse"]),
-    # empty sample against a non-empty bank: UB in find_duplicate; fixed 89e18fe
+    # empty sample against a non-empty bank: UB in find_duplicate; fixed 13b11d2
     ("wave 256 0 | R 0 3 0 0 8000 0 0 h:010203 | R 0 0 0 0 8000 0 0 h:-", ["corpus", "zero-length"]),
     ("wave 256 0 | R 0 0 0 0 8000 0 0 h:- | R 0 0 0 0 8000 0 0 h:- | T w:8:1:8000:4:1 offset=4", ["corpus", "zero-length"]),
-    # prefix of a sample larger than a bank crossed a bank boundary; fixed e41ec81
+    # prefix of a sample larger than a bank crossed a bank boundary; fixed 97b9d08
     ("wave 256 64 | R 0 32 0 0 8000 0 0 f:32:1 | R 0 70 0 0 8000 0 0 f:70:2 | R 0 40 0 0 8000 0 0 f:40:2", ["corpus", "prefix-of-earlier", "bank-cross"]),
     # capacity: exact fit of the last bank is refused, state unchanged after errors
     ("wave 16 0 | R 0 10 0 0 8000 0 0 f:10:1 | R 0 10 0 0 8000 0 0 f:10:2 | R 0 6 0 0 1 0 0 f:6:3 | T m: | T - | T w:8:1:8000:0:1 | T w:8:1:8000:4:1 offset=5",
@@ -325,7 +325,7 @@ def _x(b):
 _D8 = data_bytes(8, 1)
 _F8 = fmt_chunk(8, 1, 8000)
 CORPUS += [
-    # reader defects fixed f90557f .. cc35940 (each used to crash the sanitizer build or never return)
+    # reader defects fixed 3c87fd7 .. 2288e89 (each used to crash the sanitizer build or never return)
     (_x(riff([fmtx(24, 1), chunk(b"data", _D8 + b"\1")])), ["corpus", "malformed", "malformed-width"]),
     (_x(riff([fmtx(4, 2), chunk(b"data", _D8)])), ["corpus", "malformed", "malformed-width"]),
     (_x(riff([_F8, chunk(b"data", _D8)], size=200)), ["corpus", "malformed", "malformed-riff-size-large"]),
@@ -342,7 +342,7 @@ CORPUS += [
     (_x(riff([_F8, chunk(b"data", _D8), chunk(b"smpl", le32(0) * 3 + le32(60) + le32(0) * 3 + le32(1) + le32(0) + le32(0) * 2)])),
      ["corpus", "malformed", "malformed-smpl-short-loop"]),
     ("wave 256 0 | R 0 9 0 0 8000 0 0 f:8:1 | R 2 9 0 0 8000 0 0 f:8:1", ["corpus", "header-longer-than-data"]),
-    # sbits * channels overflowed int in the fmt case (UBSan wave.cpp:144); fixed ef59fe5
+    # sbits * channels overflowed int in the fmt case (UBSan wave.cpp:144); fixed aa1e920
     ("wave 256 64 | T x:524946462a00000057415645666d742010000000010001c3401f0000401f0000010008c964617461050026002b4a69886800", ["corpus", "malformed", "malformed-fmt-product"]),
     (_x(riff([fmtx(65535, 65535), chunk(b"data", _D8)])), ["corpus", "malformed", "malformed-fmt-product"]),
 ]
